@@ -12,6 +12,8 @@ struct MJ {
     std::size_t size() const { return mj_size; }
     MJ& operator[](std::size_t j) { mj_visit(j); return *this; }
     const MJ& operator[](std::size_t j) const { mj_visit(j); return *this; }
+    MJ& at(std::size_t j) { mj_visit(j); return *this; }
+    const MJ& at(std::size_t j) const { mj_visit(j); return *this; }
 };
 using sel_t = jsonpath::detail::slice_selector<MJ, MJ&>;
 struct recv : jsonpath::detail::node_receiver<MJ, MJ&> {
@@ -30,6 +32,19 @@ KFN void k_jp_slice(int has_start, long start, int has_stop, long stop, long ste
     auto* ctx = reinterpret_cast<jsonpath::detail::eval_context<MJ, MJ&>*>(rawctx);
     MJ cur; recv r; jsonpath::basic_path_node<char> root;
     s->sel_t::select(*ctx, cur, root, cur, r, jsonpath::result_options());
+}
+
+// K12.2 index_selector::select (negative indices count from the end)
+using isel_t = jsonpath::detail::index_selector<MJ, MJ&>;
+KFN void k_jp_index(long index, unsigned long size) {
+    mj_size = size;
+    alignas(16) unsigned char raw[sizeof(isel_t)] = {0};
+    isel_t* s = reinterpret_cast<isel_t*>(raw);
+    s->index_ = index;
+    alignas(16) unsigned char rawctx[sizeof(jsonpath::detail::eval_context<MJ, MJ&>)] = {0};
+    auto* ctx = reinterpret_cast<jsonpath::detail::eval_context<MJ, MJ&>*>(rawctx);
+    MJ cur; recv r; jsonpath::basic_path_node<char> root;
+    s->isel_t::select(*ctx, cur, root, cur, r, jsonpath::result_options());
 }
 
 // ---- JMESPath slice_projection::evaluate with a model Json
@@ -65,4 +80,19 @@ KFN int k_jm_slice(int has_start, long start, int has_stop, long stop, long step
     MJ2 cur; std::error_code ec;
     s->sp_t::evaluate(cur, ctx, ec);
     return ec.value();
+}
+// K12.3 (name quoting in normalized paths): jsonpath::escape_string on member names
+#include <jsoncons_ext/jsonpath/jsonpath_utilities.hpp>
+KFN unsigned long k_jp_escape(const char* s, unsigned long n, char* buf, unsigned long cap, unsigned long* ret) { fsink k{buf, 0, cap}; *ret = jsoncons::jsonpath::escape_string(s, n, k); return k.n; }
+// JMESPath index expression
+KFN void k_jm_index(long index, unsigned long size) {
+    mj_size = size;
+    using is_t = jev::index_selector;
+    alignas(16) unsigned char raw[sizeof(is_t)] = {0};
+    is_t* s = reinterpret_cast<is_t*>(raw);
+    s->index_ = index;
+    std::vector<std::unique_ptr<MJ2>> temp; temp.reserve(4);
+    jmespath::eval_context<MJ2> ctx(temp);
+    MJ2 cur; std::error_code ec;
+    s->is_t::evaluate(cur, ctx, ec);
 }
